@@ -240,7 +240,7 @@ Section C13_DFT.
     2 <= N1 -> 2 <= N2 ->
     same_on_grid im ref ->
     uniq_max N1 N2 (acorrQ ref) 0 0 ->
-    (match ms with None => True | Some m => (0 < m * m)%Q /\ (0 < acorrQ ref 0%nat 0%nat)%Q end) ->
+    (match ms with None => True | Some m => (0 < m * m)%Q end) ->
     (2 <= up -> forall x y, (x == 0)%Q -> (y == 0)%Q -> win_centred (np_win up) (du up) (ups x y)) ->
     exists a b, np_shift N1 N2 ms up (ccQ ref im) ups = Some (a, b) /\ (a == 0)%Q /\ (b == 0)%Q.
   Proof.
@@ -255,7 +255,7 @@ Section C13_DFT.
     - rewrite W1, W2. destruct ms as [m|]; cbn [admits]; [|exact I].
       assert (F1 : fz N1 0 = 0%Z) by (unfold fz; destruct (2 * Z.of_nat 0 <? Z.of_nat N1)%Z eqn:E; [reflexivity | lia]).
       assert (F2 : fz N2 0 = 0%Z) by (unfold fz; destruct (2 * Z.of_nat 0 <? Z.of_nat N2)%Z eqn:E; [reflexivity | lia]).
-      rewrite F1, F2, C00. exact Ha.
+      rewrite F1, F2. exact Ha.
     - rewrite W1, W2. exact Hw.
     - exists a, b. split; [exact E|]. apply (@undoes_zero N1 N2 a b); [lia | lia | exact U].
   Qed.
